@@ -4,6 +4,9 @@ use crypto_bigint::{BoxedUint, ConstChoice, Int, Limb, Uint, Word};
 use subtle::Choice;
 
 pub const BAD: &str = "bad-args";
+/// answer of every `cxx.hook.*` operation when the crate was built without `--cfg crypto_bigint_verif`
+#[allow(dead_code)]
+pub const HOOK_UNAVAILABLE: &str = "hook-unavailable";
 
 pub fn hex_words(s: &str, n: usize) -> Option<Vec<Word>> {
     if s.is_empty() || !s.bytes().all(|c| c.is_ascii_digit() || (b'a'..=b'f').contains(&c)) {
